@@ -167,6 +167,11 @@ func (pConn *PFCPConn) handleSessionEstablishmentRequest(msg message.Message) (m
 
 	cause := upf.SendMsgToUPF(upfMsgTypeAdd, session.PacketForwardingRules, updated)
 	if cause == ie.CauseRequestRejected {
+		// the session never came to exist: its UE address goes back to the pool as well
+		if releaseErr := releaseAllocatedIPs(upf.ippool, &session); releaseErr != nil {
+			logger.PfcpLog.Errorln("failed to release the UE IP address of session", session.localSEID, releaseErr)
+		}
+
 		pConn.RemoveSession(session)
 		return errProcessReply(ErrWriteToDatapath,
 			ie.CauseRequestRejected)
